@@ -281,6 +281,39 @@ pub fn act_bracket(sim: &mut Sim, ctx: &mut Ctx, kind: BracketKind) -> Option<Tx
         }
     };
     let w_amt = est_w.max(1);
+    // deleverage daily-limit drill: put the group's limit right around the whole-dollar value of
+    // the planned withdrawal and, half of the time, let a day pass so that this withdrawal is the
+    // one that opens a new window
+    if kind == BracketKind::Deleverage && ctx.rng.chance(2, 5) {
+        let low = crate::refm::read_oracle(&sim.store, &a_bank, sim.clock)
+            .ok()
+            .and_then(|v| crate::refm::biased(&v, &a_bank, false).ok())
+            .map(|(low, _, _)| low);
+        if let Some(low) = low {
+            use num_traits::ToPrimitive;
+            let dollars = (model::qu(w_amt) * low / model::pow10(a_bank.mint_decimals as u32)).floor().to_integer().to_u64().unwrap_or(0);
+            let lim = match ctx.rng.below(5) {
+                0 => dollars.saturating_sub(1),
+                1 => dollars,
+                2 => dollars.saturating_add(1),
+                3 => dollars / 2,
+                _ => dollars.saturating_mul(3),
+            }
+            .clamp(1, u32::MAX as u64) as u32;
+            sim.stats.fault("deleverage_limit_set_near_withdrawal_value");
+            sim.apply(Event::Tx(Tx::one("group_admin", ix::configure_deleverage_withdrawal_limit(g.key, g.admins.admin, lim))));
+            if ctx.rng.chance(1, 2) {
+                let dt = 86_400 + ctx.rng.irange(-1, 3);
+                sim.stats.fault("deleverage_day_boundary_advance");
+                sim.apply(Event::Advance { dt, dslot: dt as u64 * 2, depoch: 0 });
+                let mut f = Vec::new();
+                let evs = act_oracle_publish(sim, ctx, &mut f);
+                for e in evs {
+                    sim.apply(e);
+                }
+            }
+        }
+    }
     let has_record = acc.liquidation_record != Pubkey::default();
     let mut ixs: Vec<Ix> = Vec::new();
     if ctx.rng.chance(1, 3) {
